@@ -681,5 +681,7 @@ func runC19(res *hx.Result, rng *hx.Rng, tier string, outdir string) {
 	}
 	// second part: lives of the pool (c19life.go)
 	runC19Lives(res, rng, tier, outdir, defect, cf)
+	// fourth part: large messages on the shared connection, references shared by goroutines (c19share.go)
+	runC19Share(res, rng, tier, outdir)
 	cf.Flush()
 }
